@@ -85,6 +85,8 @@ def load_module(module):
 
 def get_func(key):
     module, qual = key.split(':')
+    if '[' in qual:          # attribute-specialised contract key, e.g. Element.__setattr__[parent]
+        qual = qual[:qual.index('[')]
     m = load_module(module)
     if qual not in m.funcs:
         raise KeyError('function %s not found in %s' % (qual, m.path))
